@@ -67,6 +67,7 @@ def run(ctx):
         views(ctx, cname)
         own_counters(ctx, cname)
         foreign(ctx, cname)
+        construction(ctx, cname)
 
 
 def fanout(ctx, cname, meth):
@@ -214,3 +215,39 @@ def foreign(ctx, cname):
                         if _is_member(a[1]) and a[2] not in allowed_reads:
                             ctx.ob("FOREIGN", "%s.%s" % (cname, m), "read of member attribute %s" % a[2], False, "", e)
     ctx.ob("FOREIGN", cname, "members are touched only through update / reset / set_reference / drift_state / retraining_recs", True, "", nontrivial=False)
+
+
+def construction(ctx, cname):
+    """Selectors: the caller's selectors on top of an identity default; base state of the ensemble's own counters."""
+    from . import common
+    site = cname + ".__init__"
+    ti = ctx.trace(cname, "__init__")
+    at = ti.final.attrs if ti.final is not None else {}
+    cs = at.get("column_selectors")
+    a = cs.single_atom() if cs is not None else None
+    ok = a is not None and a[0] == "mutated" and a[3] == "method:update" and a[4] == atom(("tuple", (P("column_selectors"),)))
+    dflt = None
+    if ok:
+        b = a[1].single_atom()
+        ok = b is not None and b[0] == "call" and b[1] == "collections.defaultdict" and len(b[2]) == 1 and (b[2][0].single_atom() or ("",))[0] == "closure"
+        dflt = b[2][0].single_atom()[1] if ok else None
+    ctx.ob("FRM", site, "selectors = the given ones on top of a default for every other member", ok, q.short(cs, 120) if cs is not None else "unset")
+    if dflt:
+        fi = ctx.prog.method("Ensemble", "__init__").nested.get(dflt.rsplit(".", 1)[-1])
+        okd = False
+        if fi is not None:
+            import ast as _ast
+            body = [s for s in fi.node.body if not (isinstance(s, _ast.Expr) and isinstance(s.value, _ast.Constant))]
+            if len(body) == 1 and isinstance(body[0], _ast.Return) and isinstance(body[0].value, _ast.Lambda):
+                lam = body[0].value
+                okd = len(lam.args.args) == 1 and isinstance(lam.body, _ast.Name) and lam.body.id == lam.args.args[0].arg
+        ctx.ob("FRM", site, "the default selector passes the data through unchanged", okd, "")
+    common.init_base(ctx, cname)
+    # views start from an empty result
+    g = ctx.prog.find_property(ctx.prog.cls(cname), "retraining_recs")
+    ctx.require(g is not None, cname + ".retraining_recs property")
+    tv = Evaluator(ctx.prog, ctx.prog.cls(cname)).run(g[0])
+    rv = tv.retval
+    base = q.unmut(rv) if rv is not None else None
+    ctx.ob("FRM", cname + ".retraining_recs", "the report starts empty and gains one entry per member that has a recommendation",
+           base is not None and (base in (atom(("dict", ())), atom(("call", "dict", (), ()))) or (base.single_atom() or ("",))[0] == "loopvar"), q.short(rv, 100) if rv is not None else "")
